@@ -64,6 +64,9 @@ EXTRA = {
                      ['G', '\\end{minipage}', None], ' ', A],
     'minipage_three_opts': ['cat', A, ' ', ['G', '\\begin{minipage}[c][3cm][t]{5cm}', None], '\n', B, '\n',
                             ['G', '\\end{minipage}', None], ' ', A],
+    'bibitem_label': ['cat', A, '\n', ['G', '\\begin{thebibliography}{9}', None], '\n',
+                      ['G', '\\bibitem{k}', None], ' ', B, '\n', ['G', '\\bibitem[Kn84]{knuth}', None], ' ', A,
+                      '\n', ['G', '\\end{thebibliography}', None], '\n', B],
     'tabular_pos': ['cat', A, ' ', ['G', '\\begin{tabular}[t]{ll}', None], T('a'), ' ', ['special', '&'],
                     ' ', B, ['G', '\\end{tabular}', None], ' ', A],
 }
